@@ -1207,7 +1207,17 @@ Returns:
         cls = self.__class__
         result = cls.__new__(cls)
         memo[id(self)] = result
+        # copy the decorated cost jointly with the counter and the monitor
+        # it is bound to, so the copy keeps counting its own evaluations
+        bound = ('_cost', '_fcalls', '_evalmon')
+        if all(k in self.__dict__ for k in bound):
+            shared = dill.copy(tuple(self.__dict__[k] for k in bound))
+            for k, v in zip(bound, shared):
+                setattr(result, k, v)
+        else: bound = ()
         for k, v in self.__dict__.items():
+            if k in bound:
+                continue
             if v is self._cost:
                 setattr(result, k, tuple(dill.copy(i) for i in v))
             else:
